@@ -532,7 +532,9 @@ func (ff *FuncFacts) edgeDominates(d, s, b *ssa.BasicBlock) bool {
 }
 
 // AtInstr is At(block of instr).
-func (ff *FuncFacts) AtInstr(i ssa.Instruction) FactSet { return ff.At(i.Block()) }
+// AtInstr returns the facts that hold at i: the dominance facts of its block, refined by the
+// boolean-phi (`a && b` evaluated as a value) and error-phi idioms (AtRefined).
+func (ff *FuncFacts) AtInstr(i ssa.Instruction) FactSet { return ff.AtRefined(i.Block()) }
 
 // EdgeFacts returns the facts holding when control passes from pred to succ
 // (facts at pred plus the branch taken).
